@@ -20,7 +20,8 @@ CONFIG = dict(
           "selection of queries up to the tier's length bound (plus seeded random longer sequences with "
           "repetitions) is replayed on one object and on re-parsed copies and every answer compared with "
           "the baseline; the same corpus is answered again by fresh processes with PYTHONHASHSEED 1, 2 "
-          "and a seed-derived value and the digests are diffed by the parent; every case is also parsed from a "
+          "and a seed-derived value - which also differ in locale, default / IO encoding, working directory, argv, HOME/TMPDIR "
+          "and in what is already imported - and the digests are diffed by the parent; every case is also parsed from a "
           "stream at an offset and as a later member of two stacks; and the vocabulary corpus is answered "
           "forward and reversed in one process (order sensitivity).  A case is one distinct "
           "byte string; non-trivial = fickling decompiles it and it has >= 3 opcodes."),
@@ -136,6 +137,19 @@ def corpus(ctx):
 
 
 def run_shard(ctx):
+    variant = os.environ.get("VERIF_C13_ENVIRONMENT")
+    if variant:
+        # process-level circumstances that are not the pickle's bytes: working directory, argv, what is
+        # already imported (the locale / encoding variables are set by the parent in the child's environment)
+        import sys
+        d = os.path.join(os.getcwd(), "some where else")
+        os.makedirs(d, exist_ok=True)
+        os.chdir(d)
+        sys.argv = ["fickling", "--inject", "print('x')", "--check-safety", "-"]
+        if variant == "preimported":
+            import os as _o, subprocess, socket, shutil, urllib.request, code, runpy, pty, webbrowser, ctypes  # noqa: F401,E401
+            import numpy  # noqa: F401
+            import vp_sink, vp_other  # noqa: F401,E401
     import fickling.fickle as f
     import fickling.analysis as analysis
     from fickling import tracing
@@ -253,6 +267,17 @@ def run_shard(ctx):
                     break
 
 
+# what else differs between the fresh processes besides the hash seed (hash seed "0" is the baseline, untouched)
+ENVIRONMENTS = {
+    "0": {},
+    "1": {"LC_ALL": "C", "LANG": "C", "PYTHONUTF8": "0", "PYTHONIOENCODING": "ascii:backslashreplace", "COLUMNS": "20",
+          "TZ": "Pacific/Kiritimati", "VERIF_C13_ENVIRONMENT": "preimported"},
+    "2": {"LC_ALL": "C.UTF-8", "PYTHONUTF8": "1", "PYTHONIOENCODING": "utf-16", "COLUMNS": "400", "NO_COLOR": "1",
+          "HOME": "/nonexistent", "TMPDIR": "/nonexistent-tmp", "VERIF_C13_ENVIRONMENT": "moved"},
+    "other": {"PYTHONWARNINGS": "ignore", "PYTHONDEVMODE": "1", "VERIF_C13_ENVIRONMENT": "moved"},
+}
+
+
 def parent_phase(tier, seed, merged):
     """Cross-process: one corpus (generated once) answered by fresh processes under several hash
     seeds; the digests are diffed here."""
@@ -267,8 +292,9 @@ def parent_phase(tier, seed, merged):
         m = merge(run_shards("C13", tier, seed, n, env={"VERIF_C13_DUMP": cdir}, timeout=CONFIG["timeout"][tier]))
         merged["inconclusive"].extend(m["inconclusive"])
         for hs in seeds:
-            m = merge(run_shards("C13", tier, seed, n, env={"VERIF_C13_TABLE": "1", "VERIF_C13_CORPUS": cdir},
-                                 hashseed=hs, timeout=CONFIG["timeout"][tier]))
+            env = {"VERIF_C13_TABLE": "1", "VERIF_C13_CORPUS": cdir}
+            env.update(ENVIRONMENTS.get(hs, ENVIRONMENTS["other"]))
+            m = merge(run_shards("C13", tier, seed, n, env=env, hashseed=hs, timeout=CONFIG["timeout"][tier]))
             merged["inconclusive"].extend(m["inconclusive"])
             t = {}
             for k in m["hists"].get("answers", {}):
@@ -309,7 +335,7 @@ def parent_phase(tier, seed, merged):
             if ch in base and dgs != base[ch]:
                 v = merged["violations"].setdefault(
                     "cross-process-differs",
-                    {"count": 0, "what": "answers for the same bytes differ between processes with different PYTHONHASHSEED",
+                    {"count": 0, "what": "answers for the same bytes differ between fresh processes with a different PYTHONHASHSEED / locale / encoding / working directory / argv / pre-imported modules",
                      "witnesses": []})
                 v["count"] += 1
                 if len(v["witnesses"]) < 3:
